@@ -447,6 +447,10 @@ def ir_jsonable(ir):
     def conv(v):
         if isinstance(v, (str, int, float, bool)) or v is None:
             return v
+        import ast as _ast
+
+        if isinstance(v, _ast.AST):
+            return "ast:" + _ast.dump(v)
         return repr(v)
 
     out = {k: conv(v) for k, v in ir.items() if k not in ("params", "returns", "_internal")}
